@@ -88,7 +88,7 @@ class Check(FormulaCheck):
             'nested arrays, two-row array, host variable or range, in random permutations and partitions; or one conditional aggregate with 1-3 criteria of the '
             'three forms against equal-length numeric/text criteria ranges; or one propagating aggregate with an error item of each code at each position. '
             'non-trivial = compared with the exact reference; distinct = distinct formula + bindings.')
-    ASSUMPTIONS = ('numeric items only; MODE only with a unique mode; GEOMEAN/HARMEAN on positive items; LARGE on a flat array; SLOPE called as ys then xs scalars with integer xs',
+    ASSUMPTIONS = ('numeric items only; with several modes MODE may report any of them; GEOMEAN/HARMEAN on positive items; LARGE on a flat array; SLOPE called as ys then xs scalars with integer xs',
                    'criteria are strings; comparison criteria on numeric cells, wildcard criteria on lower-case text cells; criterion numbers are read as doubles',
                    'nothing selected: 0 for SUMIF(S)/COUNTIF/MAXIFS, any error for AVERAGEIF(S)')
 
@@ -216,6 +216,14 @@ class Check(FormulaCheck):
                     txt, _ = self.render(xs, rnd)
                     g = self.ev('%s(%s)' % (fn, txt))
                     self.expect('C11/MODE:differs-from-definition', finite(g) and close(g, c[0][0]), items=xs, got=g, expected=c[0][0])
+            else:
+                # several modes: which one is reported is free, but it is one of them (or an error)
+                cnt = collections.Counter(xs)
+                modes = [x for x, k_ in cnt.items() if k_ == c[0][1]]
+                for fn in ('MODE', 'MODE.SNGL'):
+                    txt, _ = self.render(xs, rnd)
+                    g = self.ev('%s(%s)' % (fn, txt))
+                    self.expect('C11/MODE:not-one-of-the-modes', self.is_err(g) or (finite(g) and any(close(g, m) for m in modes)), items=xs, got=g, modes=modes)
             if n >= 2:
                 px = [rnd.randint(-20, 20) for _ in xs]
                 xm, ym = mean(px), mean(xs)
